@@ -4,6 +4,7 @@
 //   c15    <classes> <pts> <bins> <near>     real cluster_spacepoints vs model replay with the oracle tables
 //   c15lc  <classes> <pts> <near>            real largest_cluster (hook) vs model
 //   c15v   <classes> <pts> <flags> <sorted> <zclose> <rbits>   real find_vertices vs bookkeeping model
+//   c15bc  <classes> <pts> <sorted> <zclose> real beamline_clusters (hook) vs model
 //   relc15 <classes> <pts>                   implementation-only oracle: conservation, size >= 13, 3 cm connectivity,
 //                                            sanity of the oracle tables (NoDup bins, symmetric near, class consistency)
 //   relc15v <classes> <pts>                  implementation-only oracle: track partition, primary has >= 2 tracks
@@ -420,6 +421,34 @@ fn vertex_case_line(tracks: &[Track]) -> String {
         join(&rb, ",")
     )
 }
+/// beamline_clusters alone (hook), on arbitrary track lists: clusters as class-id lists in order
+fn observe_beamline(tracks: &[Track]) -> String {
+    let c = tclassify(tracks);
+    let v = tracks.to_vec();
+    match catch(move || rec::verif_beamline_clusters(v, cluster_distance())) {
+        None => "panic".to_string(),
+        Some(cl) => {
+            let v: Vec<String> = cl
+                .iter()
+                .map(|(ts, _)| join(&ts.iter().map(|t| tid(&c, t)).collect::<Vec<_>>(), ","))
+                .collect();
+            format!("ok {}", join(&v, "/"))
+        }
+    }
+}
+fn beamline_case_line(tracks: &[Track]) -> String {
+    let c = tclassify(tracks);
+    let obs = observe_beamline(tracks);
+    let sorted = match obs.strip_prefix("ok ") {
+        None => "panic".to_string(),
+        Some(cl) => cl.replace('/', ","),
+    };
+    let z: Vec<Length> = c.reps.iter().map(beam_z).collect();
+    let rows: Vec<Vec<usize>> = (0..z.len())
+        .map(|i| (0..z.len()).filter(|&j| (z[i] - z[j]).abs() < cluster_distance()).collect())
+        .collect();
+    format!("c15bc {} {} {} {}", tclasses_str(&c.reps), join(&c.ids, ","), sorted, near_str(&rows))
+}
 fn rel_vertex(tracks: &[Track]) -> String {
     let c = tclassify(tracks);
     for t in tracks {
@@ -537,6 +566,7 @@ fn emit_vertex(s: &mut Sink, label: &str, tracks: &[Track]) {
     let nontrivial = obs.starts_with("ok") && !obs.starts_with("ok none");
     let line = vertex_case_line(tracks);
     s.put(&line, &obs, label, nontrivial);
+    s.put(&beamline_case_line(tracks), &observe_beamline(tracks), &format!("beamline-{label}"), tracks.len() > 1);
     if tracks.iter().all(|t| t == t) {
         let c = tclassify(tracks);
         s.put(
@@ -653,9 +683,10 @@ fn gen_cloud(r: &mut Rng, max_n: usize) -> Cloud {
             } else {
                 "tracks-noise"
             };
-            let per = (budget * 3 / 4 / nt).max(5);
+            // at most 150 points per track (a physical track has a few dozen): the remaining budget is noise
+            let per = (budget * 3 / 4 / nt).max(5).min(150);
             for t in 0..nt {
-                let n = r.range(5, per as u64) as usize;
+                let n = if r.chance(1, 4) { r.range(5, per as u64) } else { r.range((per as u64 / 2).max(5), per as u64) } as usize;
                 let gap = r.chance(1, 5);
                 let pts = track_points(r, n, gap);
                 if t == 0 && back_to_back {
@@ -668,7 +699,7 @@ fn gen_cloud(r: &mut Rng, max_n: usize) -> Cloud {
                 }
                 raw.extend(pts);
             }
-            let noise = r.below((budget / 4 + 1) as u64) as usize;
+            let noise = r.below((budget.saturating_sub(raw.len()).max(budget / 4) + 1) as u64) as usize;
             for _ in 0..noise {
                 raw.push(random_point(r, false));
             }
@@ -821,6 +852,10 @@ pub fn observe_line(line: &str) -> Option<String> {
         }),
         "c15v" if f.len() == 7 => Some(match parse_tracks(f[1], f[2]) {
             Some(t) => observe_vertex(&t),
+            None => "bad-case".to_string(),
+        }),
+        "c15bc" if f.len() == 5 => Some(match parse_tracks(f[1], f[2]) {
+            Some(t) => observe_beamline(&t),
             None => "bad-case".to_string(),
         }),
         "relc15v" if f.len() == 3 => Some(match parse_tracks(f[1], f[2]) {
